@@ -130,6 +130,18 @@ DoListRemove(o, d) ==
 DoAppendList == /\ sl.type # "none" /\ Len(sl.entries) > 0
                 /\ db' = Append(db, sl) /\ sl' = NoList /\ last' = Rec("appendlist", "-", "-", "-", "ok")
 
+(* remove a whole list: the k-th one, or (k beyond the end) a list the database does not hold *)
+KName == <<"1", "2", "3", "4", "5", "6", "7", "8", "9">>
+\* @type: Int => Bool;
+DoRemoveList(k) == /\ k \in 1..9 /\ k <= Len(db) + 1 /\ UNCHANGED sl
+                   /\ IF k <= Len(db) THEN db' = Without(db, k) /\ last' = Rec("removelist", "-", "-", KName[k], "ok")
+                      ELSE UNCHANGED db /\ last' = Rec("removelist", "-", "-", KName[k], "nolist")
+(* membership query on the scratch list *)
+\* @type: (Str, $dval) => Bool;
+DoListQuery(o, d) == /\ sl.type # "none" /\ d.types \cap {sl.type} # {} /\ UNCHANGED <<db, sl>>
+                     /\ last' = Rec("listquery", sl.type, o, d.id,
+                                    IF \E i \in DOMAIN sl.entries : sl.entries[i].owner = o /\ sl.entries[i].data = d.id THEN "true" ELSE "false")
+
 \* @type: Seq($list) => Bool;
 AllDecodable(d) == \A i \in DOMAIN d : d[i].type \in Decodable
 DoRecode == /\ UNCHANGED <<db, sl>>
@@ -138,8 +150,9 @@ DoRecode == /\ UNCHANGED <<db, sl>>
 Init == db = <<>> /\ sl = NoList /\ last = Rec("init", "-", "-", "-", "ok")
 Next == \/ \E o \in Owners, d \in Data : \E t \in d.types : DoAppend(t, o, d) \/ DoRemove(t, o, d) \/ DoQuery(t, o, d)
         \/ \E t \in ValidSchemes : DoListNew(t)
-        \/ \E o \in Owners, d \in Data : DoListAppend(o, d) \/ DoListRemove(o, d)
+        \/ \E o \in Owners, d \in Data : DoListAppend(o, d) \/ DoListRemove(o, d) \/ DoListQuery(o, d)
         \/ DoAppendList \/ DoRecode
+        \/ \E k \in 1..9 : DoRemoveList(k)
 Spec == Init /\ [][Next]_vars
 
 (* ---- C09, the part that does not need the flat view ---- *)
